@@ -34,10 +34,10 @@ ASSUMPTIONS = ['code points <= U+00FF for the \\b / \\w decisions of the model (
                '20 s alarm per input)']
 
 META = {
-    "text": "Totality of the modelled text level (scanner, statement splitter, str.format model) is by construction (structural recursion) with explicit consumption theorems; proved for all inputs: every match consumes >= 1 character and spans are ordered and inside the text; a template whose only braces are the `{}` of matched terms formats successfully with the terms in order (format_safe) and the failure witnesses `Y = {0}`, `Y = {}`, `Y = {{X}}`; the model's failure modes are exactly ParserError, IndentationError, and the two internal ones (format failure, missing `=`), the internal ones excluded under the stated guards; the statement loop stops at the first error. The model is tied to term_re / split_equations_iter / parse_equation by exhaustive strings over the driving alphabet, grammar scripts under all layouts and mutants. The oracle runs the property on the real parse_model/build_model with a canary.",
+    "text": "Model M2 (term_re scanner, split_equations_iter automaton, whitespace normalisation, int(), Term.__str__/code, str.format, parse_equation up to terms/equation/code) is total by construction (structural recursion only). Proved for all inputs: every alternative of term_re consumes >= 1 and <= the available characters (matchAt_consumes); finditer spans are non-empty, ordered, disjoint, inside the text (scanTerms_spans); every yielded statement is non-blank and matched by equation_re (split_yields_checked); format_safe: if every brace of a statement lies inside a matched term, the normalised template has exactly one automatic field per match and str.format succeeds with the terms in order (and fails when arguments are missing); parse_error_classes: a statement with '=', braces inside terms and no match straddling '=' fails only with ParserError/IndentationError; parseBody_errors pins each internal failure to its exact cause; the statement loop stops at the first error. Negations at witnesses (decide): 'Y = {0}', 'Y = {}' -> format failure, 'Y = {{X}}' drops the term, a parenthesised fence without '=' -> unpack failure, an unterminated fence swallows the rest silently.",
     "design_ref": "DESIGN.md §5 M2, §6 C13, §7 rows 8, 9, 10, 18",
-    "note": "Partial: CPython's compile/exec and the `re` engine are outside the proof (tied by the correspondence check only); the syntax check and the symbol merge of parse_model are exercised by the oracle, not modelled here (M3). Known findings on the unchanged code: exec at parse time (and exceptions escaping from it), stray braces reaching str.format, a statement without `=` reaching tuple unpacking, statements with no assignable left-hand side or a left-hand name also called as a function contribute no equation, an unterminated fence swallows the rest of the script.",
-    "technique": "Lean 4 proof (structural recursion, step lemmas) + exhaustive/differential correspondence check + property oracle with canary"
+    "note": "Partial: CPython compile/exec (the syntax check of parse_model), the `re` engine and the symbol stage (Symbol.combine, M3) are outside the proof; the model is tied to term_re/split_equations_iter/parse_equation by exhaustive strings (L<=4 quick, L<=5 thorough over the 26-character driving alphabet, longer over reduced alphabets), grammar scripts under all layouts (strict) and mutants (lenient: only the accepted / own-error / internal-error abstraction must agree, finer drift is reported in the evidence as model_drift). The oracle runs the property on the real parse_model/build_model with a canary (sentinel `self`/`CANARY` in fsic.parser globals, patched print/open). Eight open known findings (exec at parse time x3, stray braces, missing '=', two kinds of silently dropped statement, unterminated fence); candidate patches in findings/*.diff pass the 240-test baseline.",
+    "technique": "Lean 4 proof (structural recursion, single-step lemmas, shape invariant Auto preserved by the normalisation) + exhaustive/differential correspondence check + property oracle with canary"
 }
 
 FINDING_INPUTS = [
